@@ -18,10 +18,11 @@ LibDef == << [plen |-> 5, ulen |-> 1], [plen |-> 6, ulen |-> 2], [plen |-> 7, ul
              [plen |-> 20004, ulen |-> 20000] >>
 
 \* header sizes: minimal, +4, and two sizes whose stored size byte is >= 0x40 (260..1024 bytes: legal, only extra padding)
-BlockShapes == {[pid |-> p, hsize |-> MinHdr(hp, hu, Lib[p].plen, Lib[p].ulen) + extra, hasP |-> hp, hasU |-> hu] :
-                   p \in Pids, hp \in BOOLEAN, hu \in BOOLEAN, extra \in {0, 4, 256, 1000}}
+BlockShapes == {[pid |-> p, hsize |-> hs, hasP |-> hp, hasU |-> hu] :
+                   p \in Pids, hp \in BOOLEAN, hu \in BOOLEAN, hs \in {0, 4, 256, 260, 1024}}
+\* hs = 0 / 4: minimal / minimal + 4; 256 (size byte 0x3F), 260 (0x40), 1024 (0xFF, the maximum) are absolute
 \* blocks after the first come from a smaller family (keeps the enumeration tractable)
-BlockShapes2 == {[pid |-> p, hsize |-> MinHdr(hp, hu, Lib[p].plen, Lib[p].ulen), hasP |-> hp, hasU |-> hu] :
+BlockShapes2 == {[pid |-> p, hsize |-> 0, hasP |-> hp, hasU |-> hu] :
                    p \in Pids2, hp \in BOOLEAN, hu \in BOOLEAN}
 RECURSIVE SeqsUpTo(_, _)
 SeqsUpTo(S, n) == IF n = 0 THEN {<<>>} ELSE LET P == SeqsUpTo(S, n - 1) IN P \cup {Append(q, x) : q \in {r \in P : Len(r) = n - 1}, x \in S}
@@ -93,8 +94,10 @@ Mutate(g, m) ==
 \* share the enumeration; invariants are evaluated on finished files only.
 Init == /\ origc \in Checks /\ shapes = <<>> /\ mut = NoMut /\ done = FALSE
         /\ file = GoodFile(origc, <<>>)
+Abs(s) == IF s.hsize >= 256 THEN s ELSE [s EXCEPT !.hsize = MinHdr(s.hasP, s.hasU, Lib[s.pid].plen, Lib[s.pid].ulen) + s.hsize]
 AddBlock == /\ ~done /\ Len(shapes) < MaxBlocks
-            /\ \E s \in (IF shapes = <<>> THEN BlockShapes ELSE BlockShapes2) : shapes' = Append(shapes, s) /\ file' = GoodFile(origc, Append(shapes, s))
+            /\ \E s0 \in (IF shapes = <<>> THEN BlockShapes ELSE BlockShapes2) :
+                 LET s == Abs(s0) IN shapes' = Append(shapes, s) /\ file' = GoodFile(origc, Append(shapes, s))
             /\ UNCHANGED <<mut, origc, done>>
 Finalize == /\ ~done
             /\ \E m \in Muts(file) : mut' = m /\ file' = Mutate(file, m)
